@@ -772,7 +772,7 @@ namespace ValueFlow
                             if (v.isImpossible() && v.bound == ValueFlow::Value::Bound::Upper && dst->pointer == 0 && dst->sign != ValueType::Sign::SIGNED)
                                 continue;
                             const size_t sz = dst->getSizeOf(settings, ValueType::Accuracy::ExactOrZero, ValueType::SizeOf::Pointer);
-                            MathLib::bigint newvalue = ValueFlow::truncateIntValue(v.intvalue + 1, sz, dst->sign);
+                            MathLib::bigint newvalue = ValueFlow::truncateIntValue(v.intvalue + 1, sz, getConversionSign(*dst, settings));
                             if (v.bound != ValueFlow::Value::Bound::Point) {
                                 if (newvalue < v.intvalue) {
                                     v.invertBound();
@@ -808,7 +808,7 @@ namespace ValueFlow
                             if (v.isImpossible() && v.bound == ValueFlow::Value::Bound::Lower && dst->pointer == 0 && dst->sign != ValueType::Sign::SIGNED)
                                 continue;
                             const size_t sz = dst->getSizeOf(settings, ValueType::Accuracy::ExactOrZero, ValueType::SizeOf::Pointer);
-                            MathLib::bigint newvalue = ValueFlow::truncateIntValue(v.intvalue - 1, sz, dst->sign);
+                            MathLib::bigint newvalue = ValueFlow::truncateIntValue(v.intvalue - 1, sz, getConversionSign(*dst, settings));
                             if (v.bound != ValueFlow::Value::Bound::Point) {
                                 if (newvalue > v.intvalue) {
                                     v.invertBound();
